@@ -154,3 +154,20 @@ package encrypted_leaseset
 //@     assert(xa == nil && xb == nil && seqeq(ca, cb))
 //@   }
 //@ }
+
+// C15 for every EncryptedLeaseSet value: exact expiration and IsExpired()
+// a day either side of it (A-CLOCK).
+//@ lemma C15_EncryptedIsExpired(els *EncryptedLeaseSet) {
+//@   assume(els != nil)
+//@   end := time.Unix(int64(els.published)+int64(els.expires), 0)
+//@   assert(els.ExpirationTime().Equal(end))
+//@   t0 := time.Now()
+//@   ex := els.IsExpired()
+//@   t1 := time.Now()
+//@   if end.Before(t0.Add(-24 * time.Hour)) {
+//@     assert(ex)
+//@   }
+//@   if end.After(t1.Add(24 * time.Hour)) {
+//@     assert(!ex)
+//@   }
+//@ }
